@@ -75,6 +75,31 @@ def main(write, HEADER, parse, PKG):
         ops.append(size_map[k])
     out.append("def sizeOps : List SizeOp := [" + ", ".join(ops) + "]")
     out.append("def objectiveOps : List ObjOp := [" + ", ".join(oops) + "]")
+    # GHEManager.find_design: the statements after the "all properties set" guard
+    mgr = parse("manager.py")
+    fd = find_function(mgr, "GHEManager.find_design")
+    if fd is None:
+        raise Unsupported("manager.py", mgr, "GHEManager.find_design not found")
+    mgr_map = {
+        "start_time = time()": "MgrOp.startTimer",
+        "self._search = self._design.find_design()": "MgrOp.search",
+        "self._search.ghe.compute_g_functions()": "MgrOp.computeG",
+        "self._search_time = time() - start_time": "MgrOp.stopTimer",
+        "self._search.ghe.size(method=TimestepType.HYBRID)": "MgrOp.size",
+        "return 0": "MgrOp.ret0",
+    }
+    mops = []
+    body = [s for s in fd.body if not (isinstance(s, ast.Expr) and isinstance(s.value, ast.Constant))]
+    guard = body[0] if body else None
+    if not (isinstance(guard, ast.If) and norm(guard.test).startswith("not all([") and not guard.orelse
+            and isinstance(guard.body[-1], ast.Return)):
+        raise Unsupported("manager.py", fd, "find_design does not start with the all-properties-set guard")
+    for s in body[1:]:
+        k = norm(s)
+        if k not in mgr_map:
+            raise Unsupported("manager.py", s, "statement of GHEManager.find_design outside the modelled set")
+        mops.append(mgr_map[k])
+    out.append("def findDesignOps : List MgrOp := [" + ", ".join(mops) + "]")
     # calculate_excess: what is appended to the search log
     sr = parse("search_routines.py")
     for cls, lean in (("Bisection1D", "logRow1D"), ("RowWiseModifiedBisectionSearch", "logRowRW")):
